@@ -21,13 +21,16 @@ import sv
 
 PROP = "C05"
 HARNESS_BINS = ["lex"]
-COQ_TARGETS = ["Properties/C05.vo", "Lex/Cases.vo", "Extract/LexX.vo"]
+COQ_TARGETS = ["Properties/C05.vo", "Span/ParserSpansProofs.vo", "Lex/Cases.vo", "Extract/LexX.vo"]
 TRUSTED = ["extraction: ExtrOcamlBasic only; ocaml/lex_driver.ml (int <-> N transport, UTF-8 hex printing, hand-written)",
            "logos 0.15 code generation is modelled by a hand-written maximal-munch scanner (Lex/Model.v scan_tok) whose "
            "regex/token rules are pinned to the `#[regex]`/`#[token]` attributes by the translator; agreement is checked by the tie only",
            "harness bin lex (AST walker written against the public starlark_syntax::syntax::ast types)"]
-ASSUMPTIONS = ["the parser (parser_rd.rs) is not modelled here (C06 owns coq/Parse); its span construction is covered by the generic "
-               "Span nesting lemma plus the AST walk on the implementation",
+ASSUMPTIONS = ["the parser's span construction is proved on the span-tracking version (coq/Span/ParserSpans.v) of C06's parser model "
+               "(coq/Parse, expression grammar + one-line `expr` / `target = expr` statements); statements outside that fragment "
+               "(def/if/for/load/return, type annotations, f-strings, bytes, `...`) are covered by the generic Span nesting lemma only; "
+               "the tie of the model's spans to the real parser's spans is the AST walk of the harness on the implementation "
+               "(no model-vs-implementation comparison of spanned trees yet)",
                "panics/aborts/stack overflows cannot be exhibited by a Coq model; they are searched (child processes, bisected)",
                "inputs are valid UTF-8 (AstModule::parse takes a String); raw byte inputs go through String::from_utf8 / from_utf8_lossy"]
 
@@ -736,7 +739,7 @@ def replay(ctx, rep):
 
 META = {
     "category": "proof",
-    "level_text": "Partial. Proved in Coq for all inputs (Properties/C05.v, 20 statements closed under the global context): the lexer model "
+    "level_text": "Partial. Proved in Coq for all inputs (Properties/C05.v, 27 statements closed under the global context): the lexer model "
                   "(logos scanner rules, indentation stack, paren depth, string/bytes/f-string scanners with the code's own offset "
                   "arithmetic, extracted escape table) never runs out of fuel length+1 (every round of Lexer::next consumes a character); all "
                   "token spans are ordered, non-overlapping, within the file and on character boundaries; INDENT/DEDENT balance and the "
@@ -746,12 +749,28 @@ META = {
                   "starts on one except the f-string escape error, for which the boundary claim is proved REFUTED with the witness "
                   "x = f\"\\x\u00e9\" (finding F2, span 9..10) while the translator reads `start + it.pos() - 1` from the source, and proved "
                   "to HOLD for all inputs once the source computes the span from the backslash (same pinned statements, both modes compile); "
-                  "span nesting at every depth for bottom-up recursive-descent trees over the lexer's monotone tokens; dialect monotonicity "
+                  "span nesting at every depth for bottom-up recursive-descent trees over the lexer's monotone tokens; PARSER SPANS ON THE MODEL "
+                  "(Span/ParserSpans.v = C06's recursive-descent/Pratt parser model with lexeme offsets and `last_end` threaded exactly as "
+                  "parser_rd.rs does, every node annotated with its `node.ast(l, r)` span; all constructors of Parse/Ast.v: literals, "
+                  "identifiers, tuples with/without parentheses, list/dict displays and comprehensions, dot, call with positional/named/*/** "
+                  "arguments, index, index2, slice, lambda incl. parameters with defaults, unary, not, binary operators incl. `not in`, "
+                  "conditional expression, and the one-line statements `expr` / `target = expr`): (a) erasing the spans gives exactly "
+                  "Parse.Model.parse for every token list, table and fuel (so C06's grammar theorem applies to the span-tracking parser); "
+                  "(c) every node's span is (begin of the first, end of the last lexeme) of a non-empty run of lexemes, a leaf is exactly its "
+                  "own lexeme, children are laid out in source order over disjoint consecutive sub-runs of the parent's run, the statement "
+                  "covers all lexemes of the line, and the only consumed lexemes outside an expression's span are enclosing parentheses; "
+                  "(b) hence for every lexeme list with monotone in-file spans (what the lexer theorem provides) every node is ordered and "
+                  "inside the file, inside its parent, siblings are ordered and non-overlapping, identifier/literal leaves have exactly "
+                  "their token's span. These are theorems about the MODEL of the parser; the tie to the real parser's spans remains the AST "
+                  "walk of the harness (nesting / boundaries / exact-text spans checked on the real AST of generated inputs), there is no "
+                  "spanned-tree comparison between model and implementation yet. Dialect monotonicity "
                   "of validate.rs + the two parser gates, tree unchanged. NOT provable on a model and therefore searched on the real code: "
                   "absence of panics/aborts/stack overflows/hangs in lexer+parser (child processes with bisection, nesting to 200, sizes to "
                   "64 KiB), span nesting / char boundaries / exact-text spans of the real AST, monotonicity of the real parser on the dialect lattice.",
     "level_note": "Trusted: Coq kernel; extraction + ocaml/lex_driver.ml; translator; the hand-written scanner standing for logos-generated "
-                  "code; harness AST walker. The parser itself is not modelled in this property (C06 models the expression grammar). "
+                  "code; harness AST walker. The parser's spans are proved on coq/Span/ParserSpans.v, a hand translation of the span bookkeeping of "
+                  "parser_rd.rs on top of C06's parser model (proved to erase to it); statements other than one-line expression/assignment "
+                  "statements are not in that model. "
                   "The tie is differential testing on generated inputs.",
     "technique": "Coq model of the lexer state machine with explicit UTF-8 byte offsets + invariant proofs; extracted model vs real Lexer; "
                  "structure-aware crash/span search on the real parser in child processes; dialect lattice differential",
